@@ -1,11 +1,14 @@
 //@@ unit CONNENG
 //@@ gsubst `definitions::Error` => `AmqpError` rule=R11
 //@@ gsubst `transport::Error` => `TransportError` rule=R11
+//@@ gsubst `std::cmp::min` => `cmp_min` rule=R9
 #![feature(allocator_api)]
 #![allow(unused_imports, unused_variables, dead_code, unused_mut, unused_parens)]
 use vstd::prelude::*;
 
 verus! {
+/// std::cmp::min on the integers the engine compares (Verus has no specification for the generic one)
+pub fn cmp_min(a: usize, b: usize) -> (r: usize) ensures r == (if a <= b { a } else { b }) { if a <= b { a } else { b } }
 
 //@@ include common.rs
 //@@ trusted the connection endpoint C (endpoint::Connection) is a stand-in whose method contracts are those proved in unit CONN for the real Connection (on_incoming_open / on_incoming_close / send_close state tables); session relays are opaque
